@@ -350,7 +350,7 @@ func (c *Ctx) gatedContainerRules(prefix string) {
 
 func runC11(c *Ctx) {
 	p, r := c.P, c.R
-	r.Explanation = "Decides the structural clauses of C11 on gated.Filter: all gate state (gated, orderedGated, composeFrom, Expiration, the groups' event slices) is accessed under Filter.l held for writing (pairwise lock-set discipline, including the unexported helpers' entry lock sets); insertions into the id map are paired with PushBack and removals from the map with list.Remove, both deferred before composition so they run on error too; in Process the incoming event is appended to its id's group before the flush test, composition receives exactly that group's slice, non-flush returns (nil,nil) and flush returns a fresh event built from composition's results; openGate sends only a payload proven not Gateable, with composition's type and payload unchanged; non-Gateable events are returned untouched before any lock, empty ids rejected; list iteration is safe (shared with C17). Exactly-once over long histories as such is not decided. C11.reset / C11.discard / C11.insert / C11.listops: whole-container resets only without a Broker; unsent removal only for composition failure, Gateable composite or no Broker; a group is opened only when the id has none; nothing reorders the list. C11.expiry: the expiry scan visits every withheld group and opens exactly the expired ones. C11.expiry no-shortcut: the scan is skipped with success only when there is no list or nothing is gated."
+	r.Explanation = "Decides the structural clauses of C11 on gated.Filter: all gate state (gated, orderedGated, composeFrom, Expiration, the groups' event slices) is accessed under Filter.l held for writing (pairwise lock-set discipline, including the unexported helpers' entry lock sets); insertions into the id map are paired with PushBack and removals from the map with list.Remove, both deferred before composition so they run on error too; in Process the incoming event is appended to its id's group before the flush test, composition receives exactly that group's slice, non-flush returns (nil,nil) and flush returns a fresh event built from composition's results; openGate sends only a payload proven not Gateable, with composition's type and payload unchanged; non-Gateable events are returned untouched before any lock, empty ids rejected; list iteration is safe (shared with C17). Exactly-once over long histories as such is not decided. C11.reset / C11.discard / C11.insert / C11.listops: whole-container resets only without a Broker; unsent removal only for composition failure, Gateable composite or no Broker; a group is opened only when the id has none; nothing reorders the list. C11.expiry: the expiry scan visits every withheld group and opens exactly the expired ones. C11.expiry no-shortcut: the scan is skipped with success only when there is no list or nothing is gated. C11.once / C11.recover: one Sender.Send call site outside loops; recover discipline."
 	r.NotDecided = []string{"exactly-once delivery over arbitrary long histories (the rules are its per-step obligations)", "behaviour of user ComposeFrom implementations"}
 	c.lockControls()
 	c.errControls()
@@ -372,6 +372,8 @@ func runC11(c *Ctx) {
 	c.ruleGatedPass("C11.pass")
 	c.ruleGatedPassOnly("C11.pass")
 	c.ruleExpiryScanAs("C11.expiry")
+	c.ruleRecoverResults("C11.recover", []string{PkgGated}, false)
+	c.ruleGatedSendOnce("C11.once")
 	ni := 0
 	for _, f := range p.FuncsIn(PkgGated) {
 		ni += c.listIterRule("C11.iter", f, false)
